@@ -19,13 +19,19 @@ SPEC = dict(
              'enforced) deserialize_hml returns the bit pattern of a label constructor iff the label is not longer than the remaining key - the '
              'accepted patterns are exactly the spec encodings (c10_label_accepted_iff) - so a cell whose label announces more bits than remain '
              'makes every parser entry point raise, at the root, below forks, and a parse that returns has met only fitting labels at every '
-             'depth (c10_label_too_long_rejected, c10_label_too_long_below_fork, c10_parse_labels_fit); a negative key length is refused.',
+             'depth (c10_label_too_long_rejected, c10_label_too_long_below_fork, c10_parse_labels_fit); a negative key length is refused. '
+             'SOURCE TIE: every function of parse.py and utils.py is regenerated as a Lean function on every run (Generated/HashmapSrc.lean, translator pyrec.py) and validated '
+             'against the running library; Lean proves FOR ALL INPUTS (every slice, int key length, dict, prefix, decoder pair; every recursion fuel >= 2*key_length+2) that the regenerated '
+             'deserialize_unary / deserialize_hml / parse / deserialize_hashmap_node / parse_aug / deserialize_hashmap_aug_node / parse_hashmap equal the hand model '
+             '(c10_src_label_reader, c10_src_parse, c10_src_parse_hashmap, c10_src_parse_aug), so c10_parse_any*, c10_label_accepted_iff and the over-long-label refusal hold of the code as '
+             'written (c10_src_parse_any, c10_src_parse_any_aug, c10_src_label_accepted_iff, c10_src_label_too_long_rejected). The serialiser (build_tree .. serialize_dict) is regenerated and validated, '
+             'and compared with the model by Lean evaluation on samples, but its equality with the model is NOT proved: c10_canonical rests on the hand model + correspondence.',
         level_note='Trusted: Lean kernel (propext, Classical.choice, Quot.sound); Spec/Hashmap.lean as the transcription of hashmap.tlb and of '
                    'append_dict_label; Model/Hashmap.lean as a hand transcription of utils.py/parse.py (tied by sampled differential correspondence: '
-                   'every (len,max,same) with max<=40 (<=64 thorough), tie-break boundaries for max up to 1023, random valid non-canonical trees '
+                   'for the serialiser and the HashMap/Slice glue; parser side: regenerated from parse.py and proved equal, trusting pyrec.py, the declared interface in hashmapsrc.py and PyHm.lean as the reading of Slice/Builder/dict, validated against the library on 2.4k inputs per change; every (len,max,same) with max<=40 (<=64 thorough), tie-break boundaries for max up to 1023, random valid non-canonical trees '
                    'with Merkle prunings through 8 parser entry points; over-long labels of every constructor at depth 0-4 must raise); the 200-line Python->Lean translator for the label functions; '
                    'that the hash equals the on-chain one rests on c10_canonical + c10_unique + Spec/Hashmap.lean being the reference format, on C01 (cell hash), and is cross-checked on samples against an independent Python transcription of dict.cpp.',
-        technique='Lean 4 proof (label functions translated from source, hand model for tree/parse) + differential correspondence + independent reference serialiser',
+        technique='Lean 4 proof (label functions, label reader and parse recursion regenerated from source and proved equal to the model; hand model for tree building / writing) + differential correspondence + independent reference serialiser',
     ),
     translators=[('hashmap/utils.py->Generated/LabelFns.lean', tr.regenerate),
                  ('hashmap/parse.py+utils.py->Generated/HashmapSrc.lean', hmsrc.regenerate)],
@@ -38,7 +44,7 @@ SPEC = dict(
          'well-formed forks, key lengths 1..256, plain and augmented: all 7 entry points must raise and the model must answer err; '
          'distinct = distinct (tree, constructors, prunings); non-trivial = at least one leaf',
     trusted_base=['Spec/Hashmap.lean transcribes hashmap.tlb + dict.cpp label choice', 'Model/Hashmap.lean mirrors utils.py/parse.py by hand',
-                  'harness/translate/labelfns.py', 'harness/gen/maps.py: independent reference serialiser and tree encoder'],
+                  'harness/translate/labelfns.py', 'harness/translate/pyrec.py + hashmapsrc.py (declared interface) + lean/TonVerif/PyHm.lean', 'harness/gen/maps.py: independent reference serialiser and tree encoder'],
     assumptions=['correspondence is sampled differential testing', 'pruned branches are level-1 prunings inside one Merkle proof'],
 )
 
